@@ -196,6 +196,23 @@ Proof.
   - rewrite (kinds_reach A C sgs s Hr). exact Hk.
 Qed.
 
+(** brush now (repaired [execute_in_pipeline] / [execute_via_function]): every stage of a pipeline
+    that owns its shell is started before any is awaited — every kind is [Spawned]; with lastpipe
+    the last stage alone runs in the parent shell ([Inline]). Both satisfy [inline_only_last]. *)
+Definition all_spawned (sgs : list stage) : Prop := Forall (fun sg => skind sg = Spawned) sgs.
+
+Lemma all_spawned_only_last sgs : all_spawned sgs -> inline_only_last (map (@skind A) sgs).
+Proof.
+  intros Hall i Hi. exfalso. rewrite nth_error_map in Hi.
+  destruct (nth_error sgs i) as [sg|] eqn:E; [|discriminate]. cbn in Hi. inversion Hi as [Hk].
+  unfold all_spawned in Hall. rewrite Forall_forall in Hall.
+  assert (Hs : skind sg = Spawned) by (apply Hall; eapply nth_error_In; eauto). congruence.
+Qed.
+
+Theorem progress_repaired sgs s :
+  all_spawned sgs -> reach C (init sgs) s -> ~ final s -> exists s', step C s s'.
+Proof. intros Hall. apply progress_all_spawned. apply all_spawned_only_last. exact Hall. Qed.
+
 (** ---- termination measure ---- *)
 Definition sweight (sg : stage) (r : nat) : nat :=
   ((if is_done sg then 0 else 1) + (2 * r + 2) * length (spend sg))%nat.
